@@ -47,45 +47,156 @@ func ctxValueOfKey(v ssa.Value) string {
 func (c *Ctx) PeerGate(prop string) {
 	rule := "C16.O1 peer-gate"
 	hs := c.handlersIn(rule, "/handlers/receiver")
+	isHandler := map[*ssa.Function]bool{}
+	for _, H := range hs {
+		isHandler[H] = true
+	}
 	n := 0
 	var lookups = map[*ssa.Function]bool{}
-	for _, H := range hs {
-		for _, ci := range Calls(H, func(ci ssa.CallInstruction) bool {
-			cc := ci.Common()
-			return cc.IsInvoke() && namedIs(cc.Value.Type(), pkgProcess, "Service") && protocolMethods[cc.Method.Name()]
-		}) {
-			n++
-			m := ci.Common().Method.Name()
-			// the sender id argument
-			idArg := ci.Common().Args[1]
-			idCall, ok := idArg.(*ssa.Call)
-			if !ok || idCall.Call.StaticCallee() == nil || !prog.InModule(idCall.Call.StaticCallee()) {
-				c.R.Fail(rule, Fn(H)+":"+m, c.Pos(ci), "the sender id handed to the key-generation process is not the result of the peer lookup: "+an.Term(idArg), "process.On*(ctx, senderID(ctx), ...)", nil)
-				continue
+	// gated: the instruction `site` (a protocol call, or the creation of a closure / a call of a helper that leads to one) is only
+	// reachable for an authenticated peer, and idVal is that peer's looked-up id.
+	var gated func(site ssa.Instruction, idVal ssa.Value, depth int) (bool, string, []string)
+	gated = func(site ssa.Instruction, idVal ssa.Value, depth int) (bool, string, []string) {
+		if depth > 5 {
+			return false, "call chain too deep", nil
+		}
+		fn := site.Parent()
+		// resolve the id through captured-variable cells
+		for i := 0; i < 4; i++ {
+			if u, ok := idVal.(*ssa.UnOp); ok {
+				if inner, ok := an.ResolveCell(u.X); ok {
+					idVal = inner
+					continue
+				}
+			}
+			break
+		}
+		if isHandler[fn] {
+			idCall, ok := idVal.(*ssa.Call)
+			if !ok || idCall.Call.StaticCallee() == nil || !prog.InModule(idCall.Call.StaticCallee()) || idCall.Parent() != fn {
+				return false, "the sender id handed to the key-generation process is not the result of the peer lookup: " + an.Term(idVal), nil
 			}
 			lookups[idCall.Call.StaticCallee()] = true
-			target := ci.(ssa.Instruction)
-			x, path := an.Cut(an.CutQuery{From: an.Entry(H), Target: func(i ssa.Instruction) bool { return i == target },
+			x, path := an.Cut(an.CutQuery{From: an.Entry(fn), Target: func(i ssa.Instruction) bool { return i == site },
 				AcceptEdge: func(b *ssa.BasicBlock, i int, a *an.Atom) bool {
 					if a == nil {
 						return false
 					}
-					if a.Op == "!=" && ((a.LV == ssa.Value(idCall) && an.IsConstInt(a.RV, 0)) || (a.RV == ssa.Value(idCall) && an.IsConstInt(a.LV, 0))) {
+					res := func(v ssa.Value) ssa.Value {
+						if u, ok := v.(*ssa.UnOp); ok {
+							if inner, ok := an.ResolveCell(u.X); ok {
+								return inner
+							}
+						}
+						return v
+					}
+					lv, rv := res(a.LV), res(a.RV)
+					if a.Op == "!=" && ((lv == ssa.Value(idCall) && an.IsConstInt(rv, 0)) || (rv == ssa.Value(idCall) && an.IsConstInt(lv, 0))) {
 						return true
 					}
-					if a.Op == "<" && an.IsConstInt(a.LV, 0) && a.RV == ssa.Value(idCall) {
+					if a.Op == "<" && an.IsConstInt(lv, 0) && rv == ssa.Value(idCall) {
 						return true
 					}
 					return false
 				}})
 			if x != nil {
-				c.R.Fail(rule, Fn(H)+":"+m, c.Pos(ci), "the protocol message is acted on although the caller is not a configured peer (sender id 0)", "process.On* only below [senderID != 0]", an.PathString(c.Pos, path))
+				return false, "reachable although the caller is not a configured peer (sender id 0)", an.PathString(c.Pos, path)
+			}
+			return true, "", nil
+		}
+		if fn.Parent() != nil {
+			// closure: gate its creation in the enclosing function
+			okAll, nsites := true, 0
+			var why string
+			var wit []string
+			for _, b := range fn.Parent().Blocks {
+				for _, ins := range b.Instrs {
+					mc, ok := ins.(*ssa.MakeClosure)
+					if !ok || mc.Fn != fn {
+						continue
+					}
+					nsites++
+					// the id inside the closure: a free variable -> its binding
+					id2 := idVal
+					if fv, ok := idVal.(*ssa.FreeVar); ok {
+						for k, f := range fn.FreeVars {
+							if f == fv {
+								id2 = mc.Bindings[k]
+							}
+						}
+					}
+					if a, ok := id2.(*ssa.Alloc); ok {
+						if inner, ok := an.ResolveCell(a); ok {
+							id2 = inner
+						}
+					}
+					if ok2, w, p := gated(mc, id2, depth+1); !ok2 {
+						okAll, why, wit = false, w, p
+					}
+				}
+			}
+			if nsites == 0 {
+				return false, "closure without a creation site", nil
+			}
+			return okAll, why, wit
+		}
+		// helper: every call site must be gated, with the id passed through
+		pi := -1
+		for i, p := range fn.Params {
+			if ssa.Value(p) == idVal {
+				pi = i
+			}
+		}
+		if pi < 0 {
+			return false, "the sender id used in helper " + Fn(fn) + " is not one of its parameters: " + an.Term(idVal), nil
+		}
+		ncs := 0
+		for _, caller := range c.P.ModuleFuncs() {
+			if prog.IsTestish(prog.PkgPathOf(caller)) {
+				continue
+			}
+			for _, cs := range Calls(caller, func(x ssa.CallInstruction) bool { return x.Common().StaticCallee() == fn }) {
+				ncs++
+				if ok2, w, p := gated(cs, cs.Common().Args[pi], depth+1); !ok2 {
+					return false, "via " + Fn(caller) + ": " + w, p
+				}
+			}
+		}
+		return true, "", nil
+	}
+	procImpl := c.Role(rule, pkgProcess, "Service")
+	for _, fn := range c.P.ModuleFuncs() {
+		if prog.IsTestish(prog.PkgPathOf(fn)) {
+			continue
+		}
+		for _, ci := range Calls(fn, func(ci ssa.CallInstruction) bool {
+			cc := ci.Common()
+			if cc.IsInvoke() && namedIs(cc.Value.Type(), pkgProcess, "Service") && protocolMethods[cc.Method.Name()] {
+				return true
+			}
+			if f := cc.StaticCallee(); f != nil && procImpl != nil && f.Signature.Recv() != nil && namedOf(f.Signature.Recv().Type()) == procImpl && protocolMethods[f.Name()] {
+				return true
+			}
+			return false
+		}) {
+			n++
+			m := CalleeName(ci)
+			if ci.Common().IsInvoke() {
+				m = ci.Common().Method.Name()
+			}
+			idArg := ci.Common().Args[1]
+			if !ci.Common().IsInvoke() {
+				idArg = ci.Common().Args[2]
+			}
+			ok, why, wit := gated(ci, idArg, 0)
+			if !ok {
+				c.R.Fail(rule, Fn(fn)+":"+m, c.Pos(ci), "a key-generation protocol method ("+m+") is "+why, "process.On* only for callers whose looked-up peer id is non-zero, with that id as the sender", wit)
 			} else {
-				c.R.OK(rule, Fn(H)+":"+m, c.Pos(ci), m+" only below [senderID != 0], with the looked-up id as the sender")
+				c.R.OK(rule, Fn(fn)+":"+m, c.Pos(ci), m+" only below [senderID != 0] (directly or through gated helpers/closures), with the looked-up id as the sender")
 			}
 		}
 	}
-	c.R.Floor(rule, "protocol message handlers calling the process service", n, 5)
+	c.R.Floor(rule, "call sites of protocol methods", n, 5)
 	// the lookup: non-zero only below peer.Name == authenticated client name
 	for L := range lookups {
 		bad := false
@@ -137,35 +248,6 @@ func (c *Ctx) PeerGate(prop string) {
 			c.R.OK(rule, Fn(L)+":lookup", c.P.FuncPos(L), "non-zero only as the key of the peer-table entry whose Name equals the authenticated client name")
 		}
 	}
-	// who may call the protocol methods
-	ruleW := "C16.O1 peer-gate/who-may-call"
-	procImpl := c.Role(ruleW, pkgProcess, "Service")
-	nsites := 0
-	allowed := map[*ssa.Function]bool{}
-	for _, H := range hs {
-		allowed[H] = true
-	}
-	for _, fn := range c.P.ModuleFuncs() {
-		if prog.IsTestish(prog.PkgPathOf(fn)) {
-			continue
-		}
-		for _, ci := range Calls(fn, func(ci ssa.CallInstruction) bool {
-			cc := ci.Common()
-			if cc.IsInvoke() && namedIs(cc.Value.Type(), pkgProcess, "Service") && protocolMethods[cc.Method.Name()] {
-				return true
-			}
-			if f := cc.StaticCallee(); f != nil && procImpl != nil && f.Signature.Recv() != nil && namedOf(f.Signature.Recv().Type()) == procImpl && protocolMethods[f.Name()] {
-				return true
-			}
-			return false
-		}) {
-			nsites++
-			if !allowed[fn] {
-				c.R.Fail(ruleW, Fn(fn), c.Pos(ci), "a key-generation protocol method is called from outside the peer-gated handlers", "On{Prepare,Execute,Contribute,Commit,Abort} only from the DKG handlers", nil)
-			}
-		}
-	}
-	c.R.Floor(ruleW, "call sites of protocol methods", nsites, 5)
 	// O2 identity-source: the ClientName context key is set only by the client-info interceptor from the verified certificate
 	c.IdentitySource(prop)
 }
